@@ -124,6 +124,28 @@ theorem public_methods_atomic :
       m.outsideOps = 0 ∨ (m.outsideOps = 1 ∧ m.region = false ∧ m.touches = false) := by
   decide
 
+/-! The same two facts recomputed INSIDE Lean from the raw references the translator emits
+    (`Generated.C03.Method.refs`: what is referenced, is it state / an operation, is it under the lock, is it
+    in a loop), so that the *judgement* "protected / atomic" is Lean's and Python only transcribes the AST. -/
+
+def touchesR (m : Generated.C03.Method) : Bool := m.refs.any (·.touch)
+def lockedR (m : Generated.C03.Method) : Bool :=
+  m.region && !m.irregular && m.refs.all (fun r => !r.touch || r.underLock)
+def outsideOpsR (m : Generated.C03.Method) : Nat :=
+  (m.refs.filter (fun r => r.op && !r.underLock)).foldl (fun n r => n + (if r.inLoop then 2 else 1)) 0
+
+theorem lock_discipline_from_refs :
+    ∀ m ∈ Generated.C03.methods,
+      (touchesR m = true → lockedR m = true) ∧
+      (outsideOpsR m = 0 ∨ (outsideOpsR m = 1 ∧ m.region = false ∧ touchesR m = false)) := by
+  decide
+
+/-- the summary columns used above are what Lean computes from the references -/
+theorem lock_table_summary_consistent :
+    ∀ m ∈ Generated.C03.methods,
+      m.touches = touchesR m ∧ m.locked = lockedR m ∧ m.outsideOps = outsideOpsR m := by
+  decide
+
 /-- every dict mutator is overridden by LRI (an inherited C-level mutator would bypass ring and lock) -/
 theorem no_inherited_mutators : Generated.C03.inheritedMutators = [] := by
   decide
